@@ -44,6 +44,15 @@ func (e *Evaluator) VerifGlobals() map[string]string {
 	return out
 }
 
+// VerifGlobalStrings returns the print form of all globals.
+func (e *Evaluator) VerifGlobalStrings() map[string]string {
+	out := map[string]string{}
+	for name, v := range e.global.values {
+		out[name] = v.String()
+	}
+	return out
+}
+
 // VerifScopeDepth returns the number of scopes on the scope stack.
 func (e *Evaluator) VerifScopeDepth() int {
 	n := 0
